@@ -309,6 +309,7 @@ func checkC15(c *Ctx) {
 	checkIgnoresAlwaysRead(c, "C15.R3.ignores-always-read", cmds)
 	checkConstantFormats(c, "C15.R4.constant-formats", []*packages.Package{pk, cmds})
 	checkReportLinesKept(c, "C15.R4.lines-kept", pk)
+	checkLocatedByKey(c, "C15.R2.located-by-key", pk)
 	// an entry copied from one run's report cancels the same difference of the next run only if
 	// the text of the difference is a function of the two specs: no map iteration order in it
 	c.Rule("C15.R3.stable-entries", "order taint over the diff package: the location and info of a difference never depend on map iteration order (ranges are order-insensitive, sorted before they escape, or reviewed)", 30)
@@ -1315,4 +1316,108 @@ func checkIgnoresAlwaysRead(c *Ctx, rule string, cmds *packages.Package) {
 		c.Check(seen && okGuard, rule, fmt.Sprintf("commands.DiffCommand.readIgnores › success return #%d before the file is decoded", n), c.posOf(cmds, rs.Pos()), "only when no ignore file is named",
 			"readIgnores answers an empty list without decoding the file under a condition that is not a test of the option's value: an ignore list that does not look like a regular non-empty file (a pipe, /dev/stdin, a FIFO) is dropped and nothing is ignored")
 	})
+}
+
+// checkLocatedByKey: two differences that the reader (and the ignore file) must tell apart
+// need different locations. Inside a loop over a map of named things of a spec (headers,
+// parameters, responses, properties), every difference is located under the key of the iteration.
+func checkLocatedByKey(c *Ctx, rule string, pk *packages.Package) {
+	c.Rule(rule, "inside a range over a string-keyed map of a spec, every DifferenceLocation handed to an emission derives from the key of the iteration", 3)
+	info := pk.TypesInfo
+	isLoc := func(t types.Type) bool { return t != nil && strings.HasSuffix(goan.NamedPath(t), "/diff.DifferenceLocation") }
+	for _, fd := range load.AllFuncs(pk) {
+		if fd.Body == nil {
+			continue
+		}
+		fd := fd
+		ord := map[string]int{}
+		ast.Inspect(fd.Body, func(nd ast.Node) bool {
+			rs, ok := nd.(*ast.RangeStmt)
+			if !ok {
+				return true
+			}
+			mt, ok := info.TypeOf(rs.X).Underlying().(*types.Map)
+			if !ok || specCollectionElem(info.TypeOf(rs.X)) == "" {
+				return true
+			}
+			if b, ok := mt.Key().Underlying().(*types.Basic); !ok || b.Info()&types.IsString == 0 {
+				return true
+			}
+			kid, ok := rs.Key.(*ast.Ident)
+			if !ok || kid.Name == "_" {
+				return true
+			}
+			key := info.Defs[kid]
+			// locations declared inside the loop body that mention the key (directly or through another such local)
+			keyed := map[types.Object]bool{}
+			for changed := true; changed; {
+				changed = false
+				ast.Inspect(rs.Body, func(m ast.Node) bool {
+					as, ok := m.(*ast.AssignStmt)
+					if !ok || len(as.Lhs) != 1 || len(as.Rhs) != 1 {
+						return true
+					}
+					id, ok := as.Lhs[0].(*ast.Ident)
+					if !ok {
+						return true
+					}
+					o := info.ObjectOf(id)
+					if o == nil || keyed[o] || !isLoc(o.Type()) {
+						return true
+					}
+					if goan.Mentions(info, as.Rhs[0], key) {
+						keyed[o] = true
+						changed = true
+						return true
+					}
+					for ko := range keyed {
+						if goan.Mentions(info, as.Rhs[0], ko) {
+							keyed[o] = true
+							changed = true
+						}
+					}
+					return true
+				})
+			}
+			ast.Inspect(rs.Body, func(m ast.Node) bool {
+				if inner, ok := m.(*ast.RangeStmt); ok && inner != rs {
+					return false // an inner loop locates under its own key (checked for itself)
+				}
+				call, ok := m.(*ast.CallExpr)
+				if !ok {
+					return true
+				}
+				fn := goan.Callee(info, call)
+				if fn == nil || fn.Pkg() != pk.Types {
+					return true
+				}
+				switch fn.Name() {
+				case "addDiffs", "addTypeDiff", "compareSchema", "compareItems", "compareSimpleSchema", "compareDescripton":
+				default:
+					return true
+				}
+				for _, a := range call.Args {
+					if !isLoc(info.TypeOf(a)) {
+						continue
+					}
+					okArg := goan.Mentions(info, a, key)
+					for ko := range keyed {
+						if goan.Mentions(info, a, ko) {
+							okArg = true
+						}
+					}
+					base := fmt.Sprintf("diff.%s › range %s › %s(%s)", load.FuncName(fd), goan.ExprString(rs.X), fn.Name(), goan.ExprString(a))
+					ord[base]++
+					k := base
+					if ord[base] > 1 {
+						k = fmt.Sprintf("%s #%d", base, ord[base])
+					}
+					c.Check(okArg, rule, k, c.posOf(pk, call.Pos()), "located under "+kid.Name,
+						fmt.Sprintf("inside the loop over %s the differences are reported at %s, which does not depend on %s: two entries of the map changed in the same way give identical report lines and identical JSON entries, so ignoring one ignores the other", goan.ExprString(rs.X), goan.ExprString(a), kid.Name))
+				}
+				return true
+			})
+			return true
+		})
+	}
 }
